@@ -21,6 +21,14 @@ btc_logf_t btc_sign_logf = btc_logf_dummy;
 btc_logf_t btc_segwit_logf = btc_logf_dummy;
 btc_logf_t btc_taproot_logf = btc_logf_dummy;
 
+bool ParseOpCode(const char* name, opcodetype& opcode)
+{
+    opcode = GetOpCode(name);
+    if (opcode != OP_INVALIDOPCODE) return true;
+    if (name[0] == 'O' && name[1] == 'P' && name[2] == '_') name = &name[3];
+    return name[0] == 'x' && strlen(name) == 3 && IsHex(&name[1]);   // only xff / xFF get here
+}
+
 opcodetype GetOpCode(const char* name)
 {
     // trim out "OP_" as people tend to skip those
